@@ -221,6 +221,7 @@ func (w *World) NewProc(cfg PolicyCfg) *Proc {
 		w.S.SetSkew(procNode(p), p.Skew)
 		if p.Skew != 0 {
 			w.S.Probe("clock.skewed-process")
+			w.Faults.Fired["clock.skew"]++
 		}
 	}
 	defer w.onNode(p)()
@@ -396,6 +397,7 @@ func (w *World) CloseProc(p *Proc) {
 // Crash drops a process: nothing is closed, only the metastore survives.
 func (w *World) Crash(p *Proc) {
 	p.Dead, p.Crashed = true, true
+	w.Faults.Fired["process.crash"]++
 	for _, se := range p.Sess {
 		se.Closed = true
 	}
@@ -528,6 +530,9 @@ func (w *World) Decrypt(se *Sess, drr *appencryption.DataRowRecord) ([]byte, *Op
 
 // Advance moves the clock.
 func (w *World) Advance(d time.Duration) {
+	if d > 0 {
+		w.Faults.Fired["clock.jump-forward"]++
+	}
 	w.S.Logf("advance %v", d)
 	w.S.Advance(d)
 }
